@@ -350,7 +350,8 @@ def process_failures(R, logs, fails, max_shrinks):
     per_dim = {}
     # dimensions in which a finding is already known go last and every dimension has its own budget,
     # so that known findings cannot use up the shrinking budget of a new one
-    fails = sorted(fails, key=lambda f: 1 if f["dim"] in ("syncer-replay", "restore") else 0)
+    known_dims = ("syncer-replay", "restore", "compaction")
+    fails = sorted(fails, key=lambda f: 1 if f["dim"] in known_dims else 0)
     for f in fails:
         if f["dim"] in ("missing", "runerr"):
             L = logs[f["log"]]
@@ -364,6 +365,10 @@ def process_failures(R, logs, fails, max_shrinks):
         seen[key] = 1
         if per_dim.get(f["dim"], 0) >= max_shrinks:
             continue
+        if f["dim"] in known_dims and f.get("kind") != "replies" and per_dim.get((f["dim"], "k"), 0) >= 1 and max_shrinks <= 3:
+            continue   # quick tier: one dump-level case per dimension that has an open finding (reply-level ones all count)
+        if f["dim"] in known_dims and f.get("kind") != "replies":
+            per_dim[(f["dim"], "k")] = 1
         per_dim[f["dim"]] = per_dim.get(f["dim"], 0) + 1
         L = logs[f["log"]]
         tag = "%s-%s" % (f["log"], f["dim"])
@@ -445,7 +450,7 @@ def run(ctx):
         raise SystemExit(2)
     R = Runner(ctx)
 
-    nlogs, llen = (300, 120) if quick else (1200, 140)
+    nlogs, llen = (260, 120) if quick else (1200, 140)
     jobs = []
     if ctx.replay:
         rp = json.load(open(ctx.replay))
